@@ -30,6 +30,11 @@ type acSpec struct {
 	lib       accessstructures.Monotone
 	qualified func(set map[sim.ID]bool) bool
 	nonIdeal  bool
+	// expectRefusal is set when the generator deliberately produced a layout the
+	// library documents as unsupported (hierarchical levels whose ids are not
+	// increasing with the level). Refusal is then a trivial pass; if the library
+	// accepts the layout the run continues and the reference oracle judges the result.
+	expectRefusal string
 }
 
 func idSet(ids []sim.ID) map[sim.ID]bool {
@@ -140,14 +145,28 @@ func (a *acSpec) qualifiedSets() (minimal, all [][]sim.ID) {
 
 // genAccess draws an access structure over n fresh holder ids. forceKind
 // selects a family ("" = random).
-func genAccess(w *rand.Rand, n int, forceKind string) (*acSpec, error) {
+func genAccess(w *rand.Rand, n int, forceKind string, fixedIDs ...[]sim.ID) (*acSpec, error) {
 	kinds := []string{"threshold", "unanimity", "cnf", "hierarchical", "boolexpr"}
 	kind := forceKind
+	forceInterleave := false
+	if kind == "hierarchical+interleaved" {
+		kind, forceInterleave = "hierarchical", true
+	}
 	if kind == "" {
 		kind = kinds[w.IntN(len(kinds))]
 	}
 	for attempt := 0; attempt < 50; attempt++ {
 		ids := sortedIDs(pickIDs(w, n))
+		if len(fixedIDs) > 0 && fixedIDs[0] != nil {
+			ids = sortedIDs(fixedIDs[0])
+			n = len(ids)
+		} else if forceInterleave && w.IntN(3) != 0 {
+			// small consecutive ids: where interleaving makes the Birkhoff matrix singular
+			ids = nil
+			for k := 1; k <= n; k++ {
+				ids = append(ids, sim.ID(k))
+			}
+		}
 		a := &acSpec{kind: kind, ids: ids}
 		var err error
 		switch kind {
@@ -288,7 +307,50 @@ func genAccess(w *rand.Rand, n int, forceKind string) (*acSpec, error) {
 			}
 			var levels [][]sim.ID
 			var cur []sim.ID
-			for i, id := range ids {
+			hid := append([]sim.ID(nil), ids...)
+			if forceInterleave || w.IntN(4) == 0 {
+				// interleaved assignment: a lower level holds an id smaller than one of a higher level
+				if w.IntN(2) == 0 {
+					w.Shuffle(len(hid), func(i, j int) { hid[i], hid[j] = hid[j], hid[i] })
+				} else {
+					// minimal interleaving: swap two ids across one level boundary, keeping each
+					// level's largest id in place (level maxima still increase)
+					var bounds []int
+					for b := range cuts {
+						if b >= 2 {
+							bounds = append(bounds, b)
+						}
+					}
+					sort.Ints(bounds)
+					var allCuts []int
+					for b := range cuts {
+						allCuts = append(allCuts, b)
+					}
+					sort.Ints(allCuts)
+					type span struct{ lo, b int }
+					var ok []span
+					for _, b := range bounds {
+						lo := 0
+						for _, o := range allCuts {
+							if o < b {
+								lo = o
+							}
+						}
+						if b-lo >= 2 { // the level before the boundary has a non-maximal member to swap
+							ok = append(ok, span{lo, b})
+						}
+					}
+					if len(ok) > 0 {
+						sp := ok[w.IntN(len(ok))]
+						// hid[lo:b] is the level before the boundary; its maximum is hid[b-1]
+						i := sp.lo + w.IntN(sp.b-1-sp.lo)
+						hid[i], hid[sp.b] = hid[sp.b], hid[i]
+					} else {
+						w.Shuffle(len(hid), func(i, j int) { hid[i], hid[j] = hid[j], hid[i] })
+					}
+				}
+			}
+			for i, id := range hid {
 				if cuts[i] {
 					levels = append(levels, cur)
 					cur = nil
@@ -296,6 +358,21 @@ func genAccess(w *rand.Rand, n int, forceKind string) (*acSpec, error) {
 				cur = append(cur, id)
 			}
 			levels = append(levels, cur)
+			maxSoFar := sim.ID(0)
+			for _, l := range levels {
+				lmax := sim.ID(0)
+				for _, id := range l {
+					if id <= maxSoFar {
+						a.expectRefusal = "hierarchical levels with ids not increasing by level"
+					}
+					if id > lmax {
+						lmax = id
+					}
+				}
+				if lmax > maxSoFar {
+					maxSoFar = lmax
+				}
+			}
 			var thr []int
 			cum, prev := 0, 0
 			ok := true
@@ -364,7 +441,7 @@ func genAccess(w *rand.Rand, n int, forceKind string) (*acSpec, error) {
 		}
 		return a, nil
 	}
-	return genAccess(w, n, "threshold")
+	return genAccess(w, n, "threshold", fixedIDs...)
 }
 
 func genGate(w *rand.Rand, ids []sim.ID, depth int) *gate {
